@@ -4,19 +4,9 @@
 //!   svcheck <ID> --replay FILE
 //!   svcheck worker <kind> <args…>     (isolated child used by C09/C10)
 
-mod corpus;
-mod dev;
-mod engine;
-mod findings;
-mod gen;
-mod keywords_data;
-mod lexer;
-mod ppm;
-mod props;
-mod sv;
-mod tape;
 
-use engine::{Ctx, Tier};
+use svverif::engine::{self, Ctx, Tier};
+use svverif::{corpus, dev, findings, props};
 use std::path::PathBuf;
 
 fn usage() -> ! {
